@@ -26,7 +26,8 @@ const vS16B = `
 interface Node { id: ID! }
 type Cat implements Node { id: ID! toy: String }
 scalar Date
-type Query { node(id: ID!): Node today: Date }
+scalar JSON
+type Query { node(id: ID!): Node today: Date search(meta: JSON): String }
 type Mutation { adopt(id: ID!): Cat }
 `
 
